@@ -22,7 +22,7 @@ type Outcome struct {
 	LogHash    string         `json:"log_hash"`
 	NonTrivial bool           `json:"nontrivial"`
 	SimNanos   int64          `json:"sim_ns"`
-	Evals      int            `json:"evals"` // executions inside this plan (>=1)
+	Evals      int            `json:"evals"`            // executions inside this plan (>=1)
 	Hashes     []string       `json:"hashes,omitempty"` // per-execution log hashes of non-trivial executions (fault enumeration)
 	Faults     map[string]int `json:"faults,omitempty"`
 	Probes     map[string]int `json:"probes,omitempty"`
